@@ -267,16 +267,28 @@ class McastHarness:
             raise Unsupported("auto_connect: no `count` / `is_connected` cells (drift)")
         k = ctx.fresh("arrived", "int")
         ctx.assume(k.t >= 0)
-        e_count.vars["count"].items[0] = k
+
+        # the cells are one-element lists or plain closure variables (`nonlocal`): either way "the value of the cell"
+        def cell_set(e, name, val):
+            cur = e.vars[name]
+            if isinstance(cur, ListObj) and not cur.symbolic and len(cur.items) == 1:
+                cur.items[0] = val
+            else:
+                e.vars[name] = val
+
+        def cell_get(e, name):
+            cur = e.vars[name]
+            return cur.items[0] if isinstance(cur, ListObj) and not cur.symbolic and len(cur.items) == 1 else cur
+        cell_set(e_count, "count", k)
         was_connected = ctx.choose(2, "already connected") == 0
-        e_conn.vars["is_connected"].items[0] = was_connected
+        cell_set(e_conn, "is_connected", was_connected)
         del connects[:]
         w.log.clear()
         D = it.call(sub, [self.observer, self.sched], {})
         self.rec(ctx, uid + "/subscribe/subscribes-the-observer-to-the-connectable-exactly-once", len(csubs) == 1 and csubs[0][0] and csubs[0][0][0] is self.observer)
         should = ctx.branch(z3.And(k.t + 1 == n.t, z3.BoolVal(not was_connected)), "the n-th subscriber and not yet connected")
         self.rec(ctx, uid + "/subscribe/connects-exactly-when-the-n-th-subscriber-arrives", len(connects) == (1 if should else 0))
-        self.rec(ctx, uid + "/subscribe/counts-the-subscriber", it.to_int(e_count.vars["count"].items[0]) == k.t + 1)
+        self.rec(ctx, uid + "/subscribe/counts-the-subscriber", it.to_int(cell_get(e_count, "count")) == k.t + 1)
         if csubs:
             w.log.clear()
             orig = self.w.call
